@@ -689,7 +689,9 @@ impl World {
             if let Some(&other) = addr_id.get(&val) {
                 return fail("graph:identity_merged", format!("{} should refer to object id {} but holds {:#x}, which is object id {}: distinct objects merged", what, id, val, other));
             }
-            if !mmtk::memory_manager::is_mapped_address(unsafe { Address::from_usize(val) }) {
+            // (library-malloc mark-sweep objects live in malloc'ed memory the mmapper does not know)
+            let malloc_ms = cfg!(feature = "fs_s3") && self.cfg.plan == "MarkSweep";
+            if !malloc_ms && !mmtk::memory_manager::is_mapped_address(unsafe { Address::from_usize(val) }) {
                 return fail("graph:dangling", format!("{} (object id {}) holds {:#x}, which is not mapped memory", what, id, val));
             }
             let o = ObjectReference::from_raw_address(unsafe { Address::from_usize(val) }).unwrap();
